@@ -19,6 +19,14 @@ def run(ctx):
                 seen.add((s["id"], s["ver"]))
                 x = dict(s); x["remove_sni"] = True
                 out.append(x)
+                # client authentication requested (the client writes Certificate / CertificateVerify before its Finished)
+                for ca in (1, 2):
+                    y = dict(s); y["client_auth"] = ca
+                    out.append(y)
+                # the same spec with renegotiation support off: there the client does export keying material
+                for ca in (0, 1, 2):
+                    z = dict(s); z["client_auth"] = ca; z["no_reneg"] = True
+                    out.append(z)
         return out
     scns, events, rej, unadv, mc = nc.run_nego(ctx, "c10", ekm=4 if ctx.quick else 32, subset=add_extra, shards=12)
     for r in rej:
@@ -34,7 +42,7 @@ def run(ctx):
     # exporters that both sides produced (the client refuses when the parrot enables renegotiation, both refuse without EMS below 1.3)
     nek = sum(1 for e in res for a, b in zip(e["cekm"], e["sekm"]) if a and b)
     nosni = sum(1 for s in scns if s.get("remove_sni"))
-    if not res or nek == 0 or nosni == 0:
+    if not res or nek < 100 or nosni == 0:
         raise vlib.Machinery("vacuous: %d successful handshakes, %d exporter comparisons, %d no-SNI scenarios" % (len(res), nek, nosni))
     cov = {"evaluations": len(scns), "distinct_nontrivial": len(res),
            "rule": "compliant grid of C10 (quick: one third chosen by VERIF_SEED plus all ALPN scenarios) plus one RemoveSNIExtension handshake per (parrot, version); for every successful one TLC compares both ConnectionStates, the SNI parsed from the wire, and random exporter (label, context, length) triples; distinct = successful handshakes compared",
